@@ -13,19 +13,29 @@
                          lines that the pre-pass treats as story lines leaves `parse` unchanged, for all
                          oracles and ALL block extractors.  This is the full "trailing // comments are
                          invisible" clause for the modelled compiler; its side conditions (which lines,
-                         which texts, no trailing blank of the line's own) are exact: each has a
-                         counterexample below.
+                         which texts) are exact: each has a counterexample below.  Since fix F17k (the
+                         pre-pass stores every story line right-stripped) the line's own trailing
+                         blanks are no condition any more (trailing_blanks_compile_identically); what
+                         is left of the old `tidy` condition concerns only a decorated line that CLOSES
+                         a Python block (`@endpy` / `>>`), which the pre-pass stores as `bare`, not
+                         right-stripped: with arbitrary extractors that difference in the line list
+                         cannot be ignored (closer_with_blanks_not_decorable; the real extractors read
+                         that line through .strip() and give the same story).
+                         trailing_comments_invisible_no_closer: no such condition when no decorated line
+                         closes a Python block.
      # comment lines     hash_line_invisible_top_level_partial: inserting a # line in front of a line
                          where the pre-pass and the main loop are at top level leaves `parse`
                          unchanged (up to the line index inside a diagnostic), for all extractors that
                          are local in the sense of xs_local; hash_line_invisible_blockfree:
                          unconditionally for inputs in which every line is classified by the main loop
-                         itself (no block construct).
-                         NOT covered: # lines inside a block that an extractor consumes (@if/@for/@py
-                         bodies, join blocks), inside the @metadata block, after the last line; and
-                         xs_local is not proved of the real extractors in general (it says that they
-                         read only their own block; it is checked by evaluation for a concrete story
-                         with every block construct, small_story_local, and it fails in one corner,
+                         itself (no block construct).  Since fix F17l positions inside the @metadata
+                         block are top level like any other (hash_inside_metadata_invisible).
+                         NOT covered by a theorem: # lines inside a block that an extractor consumes
+                         (@if/@for/@py bodies, join blocks; for join blocks the minimal pairs of F17m
+                         are Examples below), after the last line; and xs_local is not proved of the
+                         real extractors in general (it says that they read only their own block; it
+                         is checked by evaluation for a concrete story with every block construct,
+                         small_story_local, and it fails in one corner,
                          join_block_absorbs_indented_comment).
      legacy = @          for_block_forms_agree_partial: a loop block opened with `@for v in c:` or with
                          `<<for v in c>>` is extracted to the same token, whatever surrounds it (whole
@@ -33,6 +43,9 @@
                          each header take the conditional extractor to the same state (header level).
                          Missing in both: composition through `parse` (the other extractor calls see
                          a line list that differs in that header), and <<py vs @py: (different dedent).
+     indentation         py_block_in_indented_if_body_*: the minimal pairs of F17j (a Python block with
+                         an under-indented line inside an indented @if body) compile identically
+                         (Examples, by evaluation).
    HELPER-LEVEL THEOREMS (suffix _partial; Proofs/LexProofs.v): the strip_inline_comment laws and
    the dedent laws (uniform indentation invisible, idempotent).  What is missing in the indentation
    ones is the composition through the extractors that call the dedenter.
@@ -254,10 +267,13 @@ Proof. vm_compute. reflexivity. Qed.
                          story lines (from the first `:: ` header on, plus `@start ` lines) outside
                          @py:/<<py bodies and outside the continuation lines of a multi-line ~
                          statement, plus the line that closes a Python block
-     bare_of l           what the pre-pass makes of a story line l: l without its comment, right-stripped
-                         when it had one (`out[i][:len - len(comment)].rstrip() if comment else out[i]`)
+     bare_of l           `bare` in the pre-pass: l without its comment, right-stripped when it had one
+                         (`out[i][:len - len(comment)].rstrip() if comment else out[i]`); a story line is
+                         stored as rstrip (bare_of l) (fix F17k), the closer of a Python block as bare_of l
      tidy l              rstrip (bare_of l) = bare_of l
-     decorable dec ls    every decoration sits on a line of the mask, is sep_ok, and its line is tidy *)
+     closer_mask ls      the lines that close a Python block (`stripped == closer`)
+     decorable dec ls    every decoration sits on a line of the mask and is sep_ok; a decorated line that
+                         closes a Python block is tidy *)
 
 (* One line: the pre-pass sees a decorated line as the undecorated one right-stripped.  No condition
    on the line (it may already carry a comment, contain `\//` or `//=`, end in `/` or `\`). *)
@@ -267,7 +283,8 @@ Proof. exact bare_deco. Qed.
 Print Assumptions trailing_comment_seen_rstripped.
 
 (* The pre-pass: what is equal, precisely, for ANY lines (tidy or not): the pre-pass of the decorated
-   input is the pre-pass of the input with the decorated lines right-stripped. *)
+   input is the pre-pass of the input with the decorated lines right-stripped (which, since F17k, they
+   are already unless they close a Python block). *)
 Theorem trailing_comments_prepass_rstrips : forall ls dec,
   within dec (story_mask ls None false 0) = true ->
   strip_comments_outside_python (decorate dec ls) None false 0 =
@@ -275,7 +292,7 @@ Theorem trailing_comments_prepass_rstrips : forall ls dec,
 Proof. exact prepass_decorate_rstrips. Qed.
 Print Assumptions trailing_comments_prepass_rstrips.
 
-(* ... hence identical when the decorated lines have no trailing blank of their own. *)
+(* ... hence identical (a decorated closer of a Python block must have no trailing blank of its own). *)
 Theorem trailing_comments_invisible_to_prepass : forall ls dec,
   decorable dec ls = true ->
   strip_comments_outside_python (decorate dec ls) None false 0 =
@@ -290,6 +307,14 @@ Theorem trailing_comments_invisible : forall pp is_call xs ls dec,
   parse pp is_call xs (decorate dec ls) = parse pp is_call xs ls.
 Proof. exact parse_decorate. Qed.
 Print Assumptions trailing_comments_invisible.
+
+(* no condition beyond the mask when no decorated line closes a Python block *)
+Theorem trailing_comments_invisible_no_closer : forall pp is_call xs ls dec,
+  within dec (story_mask ls None false 0) = true ->
+  no_closer_decorated dec (closer_mask ls None false 0) = true ->
+  parse pp is_call xs (decorate dec ls) = parse pp is_call xs ls.
+Proof. exact parse_decorate_no_closer. Qed.
+Print Assumptions trailing_comments_invisible_no_closer.
 
 Theorem documented_comment_form_admissible : forall text, sep_ok (" ", " " ++ text) = true.
 Proof. exact documented_form_ok. Qed.
@@ -386,12 +411,44 @@ Example empty_separator_not_admissible :
   sep_ok ("", " c") = false /\
   strip_comments_outside_python [":: S"; "a\" ++ "// c"] None false 0 = [":: S"; "a\// c"].
 Proof. vm_compute. split; reflexivity. Qed.
-(* 5. a line with trailing blanks of its own loses them when a comment is appended, and only then:
-      F17k (the real compiler does the same: text 'Hello   ' against 'Hello') *)
-Example trailing_blank_not_tidy :
+(* 5. (was the `tidy` side condition, defect F17k, fixed) a line with trailing blanks of its own is
+      decorable: the pre-pass drops the blanks with or without the comment, and the minimal pair of
+      proposed_fixes/F17k compiles identically, for every oracle and every extractor *)
+Example trailing_blanks_compile_identically :
   tidy "Hello   " = false /\
-  strip_comments_outside_python [":: S"; "Hello   "] None false 0 = [":: S"; "Hello   "] /\
-  strip_comments_outside_python [":: S"; "Hello    // c"] None false 0 = [":: S"; "Hello"].
+  decorate [None; doc "c"] [":: S"; "Hello   "; "Bye"] = [":: S"; "Hello    // c"; "Bye"] /\
+  decorable [None; doc "c"] [":: S"; "Hello   "; "Bye"] = true /\
+  strip_comments_outside_python [":: S"; "Hello   "; "Bye"] None false 0 = [":: S"; "Hello"; "Bye"] /\
+  strip_comments_outside_python [":: S"; "Hello    // c"; "Bye"] None false 0 = [":: S"; "Hello"; "Bye"] /\
+  (forall pp is_call xs, parse pp is_call xs [":: S"; "Hello    // c"; "Bye"] =
+                         parse pp is_call xs [":: S"; "Hello   "; "Bye"]) /\
+  match ParseAllProofs.parse_real pp0 (fun _ => true) [":: S"; "Hello   "; "Bye"] with
+  | POk a => option_map content (lookup "S" (passages a)) = Some [TText "Hello"; TText ParseMain.nl; TText "Bye"; TText ParseMain.nl]
+  | _ => False
+  end.
+Proof.
+  do 5 (split; [vm_compute; reflexivity|]). split; [|vm_compute; reflexivity].
+  intros pp is_call xs.
+  apply (trailing_comments_invisible pp is_call xs [":: S"; "Hello   "; "Bye"] [None; doc "c"]).
+  vm_compute. reflexivity.
+Qed.
+(*    what is left of it: the line that closes a Python block is stored as `bare`, so with trailing
+      blanks of its own it reaches the extractors differently once decorated (every extractor of
+      /repo reads it through .strip(): the compiled story is the same, by evaluation) *)
+Example closer_with_blanks_not_decorable :
+  let ls := [":: S"; "@py:"; "x = 1"; "@endpy   "; "t"] in
+  closer_mask ls None false 0 = [false; false; false; true; false] /\
+  decorable [None; None; None; doc "c"] ls = false /\
+  decorable [None; doc "a"; None; None; doc "b"] ls = true /\
+  decorable [None; None; None; doc "c"] [":: S"; "@py:"; "x = 1"; "@endpy"; "t"] = true /\
+  strip_comments_outside_python ls None false 0 = ls /\
+  strip_comments_outside_python (decorate [None; None; None; doc "c"] ls) None false 0 =
+    [":: S"; "@py:"; "x = 1"; "@endpy"; "t"] /\
+  match ParseAllProofs.parse_real pp0 (fun _ => true) (decorate [None; None; None; doc "c"] ls),
+        ParseAllProofs.parse_real pp0 (fun _ => true) ls with
+  | POk a, POk b => story_eqb a b = true
+  | _, _ => False
+  end.
 Proof. vm_compute. repeat split; reflexivity. Qed.
 (* 6. lines before the first passage header are not story lines for the pre-pass *)
 Example preamble_not_decorable :
@@ -405,24 +462,24 @@ Proof. vm_compute. split; reflexivity. Qed.
      insert_at k c ls     ls with the line c inserted in front of line k
      is_hash c            the stripped line begins with `#`
      top_level_at pp xs ls k   in front of line k the pre-pass is outside Python code (no open
-                          @py:/<<py block, no pending continuation line), the main loop arrives at
-                          index k (k is not inside a block that an extractor consumes) and is not
-                          inside the @metadata block
+                          @py:/<<py block, no pending continuation line) and the main loop arrives at
+                          index k (k is not inside a block that an extractor consumes); since fix F17l
+                          the @metadata block is no exception
      xs_local xs L k c    the extractors read only their own block: a block that ended before line k
                           is extracted unchanged from the input with c inserted, a block that starts
                           at or after line k is extracted from the shifted input as from the original
                           (asked only at lines where the main loop calls an extractor)
-     seen_comment ls k c  the inserted line as the main loop sees it (bare_of c in the story, c in the
-                          preamble)
+     seen_comment ls k c  the inserted line as the main loop sees it (rstrip (bare_of c) in the story, c
+                          in the preamble)
      erase                a diagnostic without the line index it carries (the inserted line shifts the
                           indices after it); erase (POk s) = POk s *)
 
-(* the pre-pass passes a comment line through (without its own trailing // comment when it stands
-   in the story) and is otherwise undisturbed *)
+(* the pre-pass passes a comment line through (without its own trailing // comment and trailing blanks
+   when it stands in the story) and is otherwise undisturbed *)
 Theorem hash_line_through_prepass : forall k ls ins c,
   prepass_at ls None false 0 k = Some (None, ins, 0) -> k < List.length ls -> is_hash c = true ->
   strip_comments_outside_python (insert_at k c ls) None false 0 =
-  insert_at k (if ins then bare_of c else c) (strip_comments_outside_python ls None false 0).
+  insert_at k (if ins then rstrip (bare_of c) else c) (strip_comments_outside_python ls None false 0).
 Proof. exact prepass_insert. Qed.
 Print Assumptions hash_line_through_prepass.
 
@@ -496,15 +553,27 @@ Example hash_inside_statement_is_code :
   strip_comments_outside_python (insert_at 5 "# c" plain_story) None false 0 =
   insert_at 5 "# c" (strip_comments_outside_python plain_story None false 0).
 Proof. vm_compute. split; reflexivity. Qed.
-(* inside the @metadata block a # line ends the block (or becomes a key when indented with a colon): F17l *)
-Example hash_inside_metadata_changes_the_story :
-  top_level_at pp0 no_extractors ["@metadata"; "  title: X"; "  author: Y"; ":: Start"; "hi"] 2 = false /\
-  (match parse pp0 (fun _ => true) no_extractors ["@metadata"; "  title: X"; "  author: Y"; ":: Start"; "hi"],
-         parse pp0 (fun _ => true) no_extractors ["@metadata"; "  title: X"; "# note"; "  author: Y"; ":: Start"; "hi"] with
-   | POk a, POk b => metadata a = [("title", "X"); ("author", "Y")] /\ metadata b = [("title", "X")]
-   | _, _ => False
+(* inside the @metadata block a # line is skipped like a blank line (was defect F17l: it ended the block,
+   or became a key when indented with a colon): the positions are top level, the theorem applies, and the
+   three inputs of proposed_fixes/F17l give the same story *)
+Definition meta_story : list string := ["@metadata"; "  title: X"; "  author: Y"; ":: Start"; "hi"].
+Example hash_inside_metadata_invisible :
+  map (top_level_at pp0 no_extractors meta_story) [1; 2; 3] = [true; true; true] /\
+  (match parse pp0 (fun _ => true) no_extractors meta_story,
+         parse pp0 (fun _ => true) no_extractors (insert_at 2 "# note" meta_story),
+         parse pp0 (fun _ => true) no_extractors (insert_at 2 "  # note: this" meta_story) with
+   | POk a, POk b, POk c => metadata a = [("title", "X"); ("author", "Y")] /\ story_eqb a b = true /\ story_eqb a c = true
+   | _, _, _ => False
    end).
 Proof. vm_compute. repeat split; reflexivity. Qed.
+Example hash_inside_metadata_by_theorem : forall is_call xs c, extractors_ok xs -> is_hash c = true ->
+  forall s, parse pp0 is_call xs meta_story = POk s -> parse pp0 is_call xs (insert_at 2 c meta_story) = POk s.
+Proof.
+  intros is_call xs c Hx Hc s Hs. apply hash_line_same_story_blockfree; try assumption.
+  - vm_compute. reflexivity.
+  - simpl. lia.
+  - vm_compute. reflexivity.
+Qed.
 (* a block in the input, concretely: same story, positions inside the blocks are not top level *)
 Example sample_story_hash_lines :
   map (top_level_at pp0 ParseAllProofs.real_extractors sample_story) [2; 3; 6; 12; 18; 24; 27; 28; 31] =
@@ -595,6 +664,60 @@ Example join_block_absorbs_indented_comment :
     POk ([TText "You rest."; TText ParseMain.nl], [], 2) /\
   match ParseAllProofs.parse_real pp0 (fun _ => true) (insert_at 3 "      # note" js),
         ParseAllProofs.parse_real pp0 (fun _ => true) js with
+  | POk a, POk b => story_eqb a b = true
+  | _, _ => False
+  end.
+Proof. vm_compute. repeat split; reflexivity. Qed.
+
+(* # lines inside the block of a `-> @join` choice (was defect F17m: a comment line decided where the
+   block ends and what its base indentation is): the three inputs of proposed_fixes/F17m, and a comment
+   as last line of the block, compile identically; the extractor consumes the comment line with the block *)
+Definition join_story : list string := [":: Start"; "* [J] -> @join"; "   inner"; "@join"; "after"].
+Example hash_in_join_block_invisible :
+  x_join ParseAllProofs.real_extractors join_story 2 0 = POk ([TText "inner"; TText ParseMain.nl], [], 1) /\
+  x_join ParseAllProofs.real_extractors (insert_at 2 "  # c" join_story) 2 0 =
+    POk ([TText "inner"; TText ParseMain.nl], [], 2) /\
+  x_join ParseAllProofs.real_extractors (insert_at 2 "# c" join_story) 2 0 =
+    POk ([TText "inner"; TText ParseMain.nl], [], 2) /\
+  forallb (fun ls =>
+    match ParseAllProofs.parse_real pp0 (fun _ => true) ls,
+          ParseAllProofs.parse_real pp0 (fun _ => true) join_story with
+    | POk a, POk b => story_eqb a b
+    | _, _ => false
+    end) [insert_at 2 "  # c" join_story; insert_at 2 "# c" join_story; insert_at 3 "# c" join_story;
+          insert_at 3 "        # c" join_story] = true.
+Proof. vm_compute. repeat split; reflexivity. Qed.
+
+(* ------------------------------------------------------------------------------------------- *)
+(* (b') indentation of an @if body around a Python block                                        *)
+(* ------------------------------------------------------------------------------------------- *)
+(* was defect F17j: a line of a Python block indented less than the block's first line kept the
+   indentation of the enclosing @if body.  The minimal pairs of proposed_fixes/F17j: the block is
+   extracted to the same code whether the @if body is indented or not, in both block syntaxes. *)
+Definition py_flush : list string :=
+  [":: S"; "@if flag:"; "@py:"; "    s = '''"; "  a"; "    '''"; "@endpy"; "@endif"].
+Definition py_indented : list string :=
+  [":: S"; "@if flag:"; "  @py:"; "      s = '''"; "    a"; "      '''"; "  @endpy"; "@endif"].
+Definition py_code : string := "s = '''" ++ ParseMain.nl ++ "  a" ++ ParseMain.nl ++ "'''".
+Example py_block_in_indented_if_body_extracted :
+  ParseBlocks.extract_python_block py_flush 2 = POk (py_code, 5) /\
+  ParseBlocks.extract_python_block py_indented 2 = POk (py_code, 5).
+Proof. vm_compute. split; reflexivity. Qed.
+Example py_block_in_indented_if_body_compiles_identically :
+  match ParseAllProofs.parse_real pp0 (fun _ => true) py_flush,
+        ParseAllProofs.parse_real pp0 (fun _ => true) py_indented with
+  | POk a, POk b => story_eqb a b = true /\
+      option_map content (lookup "S" (passages a)) = Some [TCond [Branch "flag" [TPyBlock py_code] []]]
+  | _, _ => False
+  end.
+Proof. vm_compute. split; reflexivity. Qed.
+Definition legacy_py (q : string) : list string :=
+  [":: S"; "@if flag:"; q ++ "<<py"; q ++ "    s = '''"; q ++ "  a"; q ++ "    '''"; q ++ ">>"; "@endif"].
+Example legacy_py_block_in_indented_if_body_compiles_identically :
+  ParseBlocks.extract_python_block (legacy_py "") 2 = POk (py_code, 5) /\
+  ParseBlocks.extract_python_block (legacy_py "  ") 2 = POk (py_code, 5) /\
+  match ParseAllProofs.parse_real pp0 (fun _ => true) (legacy_py ""),
+        ParseAllProofs.parse_real pp0 (fun _ => true) (legacy_py "  ") with
   | POk a, POk b => story_eqb a b = true
   | _, _ => False
   end.
